@@ -1,16 +1,430 @@
 package main
 
 import (
+	"fmt"
+	"math/big"
+	"math/bits"
+
 	"github.com/tuneinsight/lattigo/v6/ring"
 )
 
 func init() { register("C01", genC01) }
 
+// ---- prime pool -------------------------------------------------------------------------
+
+// primesFor returns NTT-friendly primes (≡ 1 mod nthRoot) of assorted bit sizes, smallest to 61.
+func primesFor(nthRoot uint64, sizes []int) []uint64 {
+	var out []uint64
+	seen := map[uint64]bool{}
+	for _, b := range sizes {
+		if uint64(1)<<uint(b) <= nthRoot {
+			continue
+		}
+		g := ring.NewNTTFriendlyPrimesGenerator(uint64(b), nthRoot)
+		for k := 0; k < 2; k++ {
+			var p uint64
+			var err error
+			if k == 0 {
+				p, err = g.NextDownstreamPrime()
+			} else {
+				p, err = g.NextUpstreamPrime()
+			}
+			if err == nil && !seen[p] && bits.Len64(p) <= 61 {
+				seen[p] = true
+				out = append(out, p)
+			}
+		}
+	}
+	return out
+}
+
+var quickSizes = []int{8, 13, 20, 30, 31, 32, 33, 45, 55, 60, 61}
+var thoroughSizes = []int{6, 7, 8, 9, 10, 12, 13, 16, 17, 20, 24, 28, 30, 31, 32, 33, 36, 40, 45, 50, 55, 58, 59, 60, 61}
+
+// ---- coefficient patterns ---------------------------------------------------------------
+
+var patNames = []string{"uniform", "zero", "max", "alt", "spike", "lowbits", "near"}
+
+// patVec produces n values in [0, bound) following a boundary pattern.
+func patVec(r *SplitMix, pat string, n int, bound uint64) []uint64 {
+	v := make([]uint64, n)
+	if bound == 0 {
+		bound = 1
+	}
+	switch pat {
+	case "uniform":
+		for i := range v {
+			v[i] = r.Below(bound)
+		}
+	case "zero":
+	case "max":
+		for i := range v {
+			v[i] = bound - 1
+		}
+	case "alt":
+		for i := range v {
+			if i&1 == 0 {
+				v[i] = bound - 1
+			}
+		}
+	case "spike":
+		v[r.Intn(n)] = bound - 1 - r.Below(2)%bound
+	case "lowbits":
+		for i := range v {
+			v[i] = r.Below(4) % bound
+		}
+	case "near":
+		for i := range v {
+			v[i] = (bound - 1 - r.Below(4)%bound)
+		}
+	}
+	return v
+}
+
+func (c *Ctx) pat() string { return patNames[c.rng.Intn(len(patNames))] }
+
+// bound classes: reduced, lazy 2q, 4q, 8q-ish, full word
+func (c *Ctx) boundFor(q uint64) (string, uint64) {
+	switch c.rng.Intn(6) {
+	case 0, 1:
+		return "q", q
+	case 2:
+		return "2q", 2 * q
+	case 3:
+		return "4q", 4 * q
+	case 4:
+		if q < 1<<60 {
+			return "8q", 8 * q
+		}
+		return "2q", 2 * q
+	default:
+		return "W", ^uint64(0)
+	}
+}
+
+// ---- SubRing method table ---------------------------------------------------------------
+
+type vecOp struct {
+	name string
+	f    func(s *ring.SubRing, p1, p2, p3 []uint64, s0, s1 uint64)
+}
+
+var vecOps = []vecOp{
+	{"Add", func(s *ring.SubRing, p1, p2, p3 []uint64, _, _ uint64) { s.Add(p1, p2, p3) }},
+	{"AddLazy", func(s *ring.SubRing, p1, p2, p3 []uint64, _, _ uint64) { s.AddLazy(p1, p2, p3) }},
+	{"Sub", func(s *ring.SubRing, p1, p2, p3 []uint64, _, _ uint64) { s.Sub(p1, p2, p3) }},
+	{"SubLazy", func(s *ring.SubRing, p1, p2, p3 []uint64, _, _ uint64) { s.SubLazy(p1, p2, p3) }},
+	{"Neg", func(s *ring.SubRing, p1, _, p3 []uint64, _, _ uint64) { s.Neg(p1, p3) }},
+	{"Reduce", func(s *ring.SubRing, p1, _, p3 []uint64, _, _ uint64) { s.Reduce(p1, p3) }},
+	{"ReduceLazy", func(s *ring.SubRing, p1, _, p3 []uint64, _, _ uint64) { s.ReduceLazy(p1, p3) }},
+	{"MulCoeffsLazy", func(s *ring.SubRing, p1, p2, p3 []uint64, _, _ uint64) { s.MulCoeffsLazy(p1, p2, p3) }},
+	{"MulCoeffsLazyThenAddLazy", func(s *ring.SubRing, p1, p2, p3 []uint64, _, _ uint64) { s.MulCoeffsLazyThenAddLazy(p1, p2, p3) }},
+	{"MulCoeffsBarrett", func(s *ring.SubRing, p1, p2, p3 []uint64, _, _ uint64) { s.MulCoeffsBarrett(p1, p2, p3) }},
+	{"MulCoeffsBarrettLazy", func(s *ring.SubRing, p1, p2, p3 []uint64, _, _ uint64) { s.MulCoeffsBarrettLazy(p1, p2, p3) }},
+	{"MulCoeffsBarrettThenAdd", func(s *ring.SubRing, p1, p2, p3 []uint64, _, _ uint64) { s.MulCoeffsBarrettThenAdd(p1, p2, p3) }},
+	{"MulCoeffsBarrettThenAddLazy", func(s *ring.SubRing, p1, p2, p3 []uint64, _, _ uint64) { s.MulCoeffsBarrettThenAddLazy(p1, p2, p3) }},
+	{"MulCoeffsMontgomery", func(s *ring.SubRing, p1, p2, p3 []uint64, _, _ uint64) { s.MulCoeffsMontgomery(p1, p2, p3) }},
+	{"MulCoeffsMontgomeryLazy", func(s *ring.SubRing, p1, p2, p3 []uint64, _, _ uint64) { s.MulCoeffsMontgomeryLazy(p1, p2, p3) }},
+	{"MulCoeffsMontgomeryThenAdd", func(s *ring.SubRing, p1, p2, p3 []uint64, _, _ uint64) { s.MulCoeffsMontgomeryThenAdd(p1, p2, p3) }},
+	{"MulCoeffsMontgomeryThenAddLazy", func(s *ring.SubRing, p1, p2, p3 []uint64, _, _ uint64) { s.MulCoeffsMontgomeryThenAddLazy(p1, p2, p3) }},
+	{"MulCoeffsMontgomeryLazyThenAddLazy", func(s *ring.SubRing, p1, p2, p3 []uint64, _, _ uint64) { s.MulCoeffsMontgomeryLazyThenAddLazy(p1, p2, p3) }},
+	{"MulCoeffsMontgomeryThenSub", func(s *ring.SubRing, p1, p2, p3 []uint64, _, _ uint64) { s.MulCoeffsMontgomeryThenSub(p1, p2, p3) }},
+	{"MulCoeffsMontgomeryThenSubLazy", func(s *ring.SubRing, p1, p2, p3 []uint64, _, _ uint64) { s.MulCoeffsMontgomeryThenSubLazy(p1, p2, p3) }},
+	{"MulCoeffsMontgomeryLazyThenSubLazy", func(s *ring.SubRing, p1, p2, p3 []uint64, _, _ uint64) { s.MulCoeffsMontgomeryLazyThenSubLazy(p1, p2, p3) }},
+	{"MulCoeffsMontgomeryLazyThenNeg", func(s *ring.SubRing, p1, p2, p3 []uint64, _, _ uint64) { s.MulCoeffsMontgomeryLazyThenNeg(p1, p2, p3) }},
+	{"AddLazyThenMulScalarMontgomery", func(s *ring.SubRing, p1, p2, p3 []uint64, s0, _ uint64) { s.AddLazyThenMulScalarMontgomery(p1, p2, s0, p3) }},
+	{"AddScalarLazyThenMulScalarMontgomery", func(s *ring.SubRing, p1, _, p3 []uint64, s0, s1 uint64) { s.AddScalarLazyThenMulScalarMontgomery(p1, s0, s1, p3) }},
+	{"AddScalar", func(s *ring.SubRing, p1, _, p3 []uint64, s0, _ uint64) { s.AddScalar(p1, s0, p3) }},
+	{"AddScalarLazy", func(s *ring.SubRing, p1, _, p3 []uint64, s0, _ uint64) { s.AddScalarLazy(p1, s0, p3) }},
+	{"AddScalarLazyThenNegTwoModulusLazy", func(s *ring.SubRing, p1, _, p3 []uint64, s0, _ uint64) { s.AddScalarLazyThenNegTwoModulusLazy(p1, s0, p3) }},
+	{"SubScalar", func(s *ring.SubRing, p1, _, p3 []uint64, s0, _ uint64) { s.SubScalar(p1, s0, p3) }},
+	{"MulScalarMontgomery", func(s *ring.SubRing, p1, _, p3 []uint64, s0, _ uint64) { s.MulScalarMontgomery(p1, s0, p3) }},
+	{"MulScalarMontgomeryLazy", func(s *ring.SubRing, p1, _, p3 []uint64, s0, _ uint64) { s.MulScalarMontgomeryLazy(p1, s0, p3) }},
+	{"MulScalarMontgomeryThenAdd", func(s *ring.SubRing, p1, _, p3 []uint64, s0, _ uint64) { s.MulScalarMontgomeryThenAdd(p1, s0, p3) }},
+	{"MulScalarMontgomeryThenAddScalar", func(s *ring.SubRing, p1, _, p3 []uint64, s0, s1 uint64) { s.MulScalarMontgomeryThenAddScalar(p1, s0, s1, p3) }},
+	{"SubThenMulScalarMontgomeryTwoModulus", func(s *ring.SubRing, p1, p2, p3 []uint64, s0, _ uint64) { s.SubThenMulScalarMontgomeryTwoModulus(p1, p2, s0, p3) }},
+	{"MForm", func(s *ring.SubRing, p1, _, p3 []uint64, _, _ uint64) { s.MForm(p1, p3) }},
+	{"MFormLazy", func(s *ring.SubRing, p1, _, p3 []uint64, _, _ uint64) { s.MFormLazy(p1, p3) }},
+	{"IMForm", func(s *ring.SubRing, p1, _, p3 []uint64, _, _ uint64) { s.IMForm(p1, p3) }},
+	{"ZeroVec", func(_ *ring.SubRing, p1, _, p3 []uint64, _, _ uint64) { copy(p3, p1); ring.ZeroVec(p3) }},
+	{"MaskVec", func(_ *ring.SubRing, p1, _, p3 []uint64, s0, s1 uint64) { ring.MaskVec(p1, int(s0), s1, p3) }},
+}
+
+// ---- reference (big.Int) for probes -------------------------------------------------------
+
+func negacyclicRef(a, b []uint64, q uint64) []uint64 {
+	n := len(a)
+	Q := new(big.Int).SetUint64(q)
+	out := make([]uint64, n)
+	acc := make([]*big.Int, n)
+	for i := range acc {
+		acc[i] = new(big.Int)
+	}
+	t := new(big.Int)
+	for i := 0; i < n; i++ {
+		if a[i] == 0 {
+			continue
+		}
+		ai := new(big.Int).SetUint64(a[i])
+		for j := 0; j < n; j++ {
+			t.Mul(ai, new(big.Int).SetUint64(b[j]))
+			if i+j < n {
+				acc[i+j].Add(acc[i+j], t)
+			} else {
+				acc[i+j-n].Sub(acc[i+j-n], t)
+			}
+		}
+	}
+	for i := range acc {
+		acc[i].Mod(acc[i], Q)
+		out[i] = acc[i].Uint64()
+	}
+	return out
+}
+
+func eqVec(a, b []uint64) bool {
+	if len(a) != len(b) {
+		return false
+	}
+	for i := range a {
+		if a[i] != b[i] {
+			return false
+		}
+	}
+	return true
+}
+
+func maxVec(a []uint64) uint64 {
+	var m uint64
+	for _, x := range a {
+		if x > m {
+			m = x
+		}
+	}
+	return m
+}
+
+// ---- generator ------------------------------------------------------------------------------
+
 func genC01(c *Ctx) {
-	q := uint64(65537)
-	qi := ring.GenMRedConstant(q)
-	for i := 0; i < 10; i++ {
-		x, y := c.rng.Below(q), c.rng.Below(q)
-		c.Emit("mred "+U(x)+" "+U(y)+" "+U(q)+" "+U(qi), U(ring.MRed(x, y, q, qi)))
+	probesOnly := probesOnly()
+	r := c.rng
+	sizes := quickSizes
+	if c.Thorough() {
+		sizes = thoroughSizes
+	}
+
+	// (1) word level: ring.MRed … against the regenerated definitions
+	if !probesOnly {
+		for _, q := range primesFor(32, sizes) {
+			qi := ring.GenMRedConstant(q)
+			br := ring.GenBRedConstant(q)
+			c.Emit(fmt.Sprintf("w genmred %d", q), U(qi))
+			c.Emit(fmt.Sprintf("w genbred %d", q), U(br[0])+","+U(br[1]))
+			c.Count("word:prime-bits-" + I(bits.Len64(q)))
+			edge := []uint64{0, 1, 2, q - 1, q, q + 1, 2*q - 1, 2 * q, 4*q - 1, 1 << 63, ^uint64(0), ^uint64(0) - 1}
+			n := c.Scale(24, 200)
+			for i := 0; i < n; i++ {
+				var x, y uint64
+				switch r.Intn(4) {
+				case 0:
+					x, y = r.Below(q), r.Below(q)
+				case 1:
+					x, y = edge[r.Intn(len(edge))], edge[r.Intn(len(edge))]
+				case 2:
+					x, y = r.U64(), r.Below(q)
+				default:
+					x, y = r.U64(), r.U64()
+				}
+				c.Emit(fmt.Sprintf("w mred %d %d %d %d", x, y, q, qi), U(ring.MRed(x, y, q, qi)))
+				c.Emit(fmt.Sprintf("w mredlazy %d %d %d %d", x, y, q, qi), U(ring.MRedLazy(x, y, q, qi)))
+				c.Emit(fmt.Sprintf("w bred %d %d %d", x, y, q), U(ring.BRed(x, y, q, br)))
+				c.Emit(fmt.Sprintf("w bredlazy %d %d %d", x, y, q), U(ring.BRedLazy(x, y, q, br)))
+				c.Emit(fmt.Sprintf("w bredadd %d %d", x, q), U(ring.BRedAdd(x, q, br)))
+				c.Emit(fmt.Sprintf("w bredaddlazy %d %d", x, q), U(ring.BRedAddLazy(x, q, br)))
+				c.Emit(fmt.Sprintf("w mform %d %d", x, q), U(ring.MForm(x, q, br)))
+				c.Emit(fmt.Sprintf("w mformlazy %d %d", x, q), U(ring.MFormLazy(x, q, br)))
+				c.Emit(fmt.Sprintf("w imform %d %d %d", x, q, qi), U(ring.IMForm(x, q, qi)))
+				c.Emit(fmt.Sprintf("w imformlazy %d %d %d", x, q, qi), U(ring.IMFormLazy(x, q, qi)))
+				c.Emit(fmt.Sprintf("w cred %d %d", x, q), U(ring.CRed(x, q)))
+			}
+		}
+	}
+
+	// (2) SubRing level
+	ns := []int{8, 16, 32, 64}
+	if c.Thorough() {
+		ns = []int{8, 16, 32, 64, 128, 256, 1024, 4096}
+	}
+	for _, N := range ns {
+		for _, ci := range []bool{false, true} {
+			nthRoot := uint64(2 * N)
+			if ci {
+				nthRoot = uint64(4 * N)
+			}
+			primes := primesFor(nthRoot, sizes)
+			if N >= 1024 && len(primes) > 6 {
+				primes = append(primes[:3], primes[len(primes)-3:]...)
+			}
+			for _, q := range primes {
+				var rg *ring.Ring
+				var err error
+				if ci {
+					rg, err = ring.NewRingConjugateInvariant(N, []uint64{q})
+				} else {
+					rg, err = ring.NewRing(N, []uint64{q})
+				}
+				if err != nil {
+					c.Count("ring-error")
+					continue
+				}
+				s := rg.SubRings[0]
+				kind := "std"
+				if ci {
+					kind = "ci"
+				}
+				c.Count(fmt.Sprintf("subring:%s:N=%d", kind, N))
+				hdr := fmt.Sprintf("%d %d %d %d", N, q, nthRoot, s.PrimitiveRoot)
+				if !probesOnly {
+					if N <= 256 {
+						c.Emit("tables "+hdr, Vec(s.RootsForward)+"|"+Vec(s.RootsBackward)+"|"+U(s.NInv)+"|"+U(s.MRedConstant)+"|"+U(s.BRedConstant[0])+","+U(s.BRedConstant[1]))
+					}
+					// vector kernels (once per prime for the standard ring)
+					if !ci && N <= 64 {
+						reps := c.Scale(1, 3)
+						for _, op := range vecOps {
+							for k := 0; k < reps; k++ {
+								_, b1 := c.boundFor(q)
+								_, b2 := c.boundFor(q)
+								_, b3 := c.boundFor(q)
+								p1 := patVec(r, c.pat(), N, b1)
+								p2 := patVec(r, c.pat(), N, b2)
+								p3 := patVec(r, c.pat(), N, b3)
+								s0, s1 := r.Below(q), r.Below(q)
+								if op.name == "MaskVec" {
+									s0 = uint64(r.Intn(64))
+									s1 = (uint64(1) << uint(1+r.Intn(32))) - 1
+								} else if r.Intn(4) == 0 {
+									s0 = r.U64()
+								}
+								line := fmt.Sprintf("vec %s %d %d %d %s %s %s", op.name, q, s0, s1, Vec(p1), Vec(p2), Vec(p3))
+								out := append([]uint64(nil), p3...)
+								op.f(s, p1, p2, out, s0, s1)
+								c.Emit(line, Vec(out))
+								c.Count("vec:" + op.name)
+							}
+						}
+					}
+					// NTT, all four entry points, lazy outputs compared as stored
+					reps := c.Scale(3, 8)
+					if N >= 1024 {
+						reps = 2
+					}
+					for k := 0; k < reps; k++ {
+						bname, b := "q", q
+						if r.Intn(3) == 0 {
+							bname, b = "2q", 2*q
+						}
+						in := patVec(r, c.pat(), N, b)
+						out := make([]uint64, N)
+						s.NTT(in, out)
+						c.Emit(fmt.Sprintf("ntt %s %s %s", kind, hdr, Vec(in)), Vec(out))
+						s.NTTLazy(in, out)
+						c.Emit(fmt.Sprintf("ntt %slazy %s %s", kind, hdr, Vec(in)), Vec(out))
+						s.INTT(in, out)
+						c.Emit(fmt.Sprintf("ntt i%s %s %s", kind, hdr, Vec(in)), Vec(out))
+						s.INTTLazy(in, out)
+						c.Emit(fmt.Sprintf("ntt i%slazy %s %s", kind, hdr, Vec(in)), Vec(out))
+						c.Count("ntt:" + kind + ":in<" + bname)
+					}
+				}
+				// probes: the property's own predicates on the real code
+				for k := 0; k < c.Scale(2, 6); k++ {
+					pat := c.pat()
+					a := patVec(r, pat, N, q)
+					t1 := make([]uint64, N)
+					t2 := make([]uint64, N)
+					s.NTT(a, t1)
+					s.INTT(t1, t2)
+					d := ""
+					if !eqVec(a, t2) {
+						d = "INTT(NTT(a))!=a"
+					}
+					c.Probe("intt_ntt", fmt.Sprintf("%s %s %s", kind, hdr, Vec(a)), "C01/"+kind+"/INTT(NTT(a))!=a", d)
+					// documented lazy output ranges
+					s.NTTLazy(a, t1)
+					d = ""
+					if m := maxVec(t1); m > 6*q-2 {
+						d = fmt.Sprintf("max=%d>6q-2=%d", m, 6*q-2)
+					}
+					c.Probe("nttlazy_range", fmt.Sprintf("%s %s %s", kind, hdr, Vec(a)), "C01/"+kind+"/NTTLazy-output-exceeds-6q-2", d)
+					s.INTTLazy(a, t1)
+					d = ""
+					if m := maxVec(t1); m > 2*q-1 {
+						d = fmt.Sprintf("max=%d>2q-1", m)
+					}
+					c.Probe("inttlazy_range", fmt.Sprintf("%s %s %s", kind, hdr, Vec(a)), "C01/"+kind+"/INTTLazy-output-exceeds-2q-1", d)
+					if !ci && N <= 64 {
+						b := patVec(r, c.pat(), N, q)
+						ref := negacyclicRef(a, b, q)
+						na, nb, nc := make([]uint64, N), make([]uint64, N), make([]uint64, N)
+						s.NTT(a, na)
+						s.NTT(b, nb)
+						s.MForm(nb, nb)
+						s.MulCoeffsMontgomery(na, nb, nc)
+						s.INTT(nc, nc)
+						d = ""
+						if !eqVec(nc, ref) {
+							d = "INTT(NTT(a)*NTT(b))!=a*b"
+						}
+						c.Probe("ntt_mul", fmt.Sprintf("%s %s %s %s", kind, hdr, Vec(a), Vec(b)), "C01/"+kind+"/NTT-not-multiplicative", d)
+						if !probesOnly {
+							c.Emit(fmt.Sprintf("rpmul %d %s %s", q, Vec(a), Vec(b)), Vec(nc))
+						}
+					}
+				}
+			}
+		}
+	}
+
+	// (3) multi-modulus Ring: automorphisms and monomials against the abstract layer (RPoly)
+	for _, N := range []int{16, 32} {
+		qs := primesFor(uint64(2*N), []int{20, 45, 60})
+		if len(qs) > 3 {
+			qs = qs[:3]
+		}
+		rg, err := ring.NewRing(N, qs)
+		if err != nil {
+			continue
+		}
+		for k := 0; k < c.Scale(6, 40); k++ {
+			lvl := r.Intn(len(qs))
+			rl := rg.AtLevel(lvl)
+			p := rl.NewPoly()
+			for i := 0; i <= lvl; i++ {
+				copy(p.Coeffs[i], patVec(r, c.pat(), N, qs[i]))
+			}
+			rows := RawRows(p)[:lvl+1]
+			gal := uint64(2*r.Intn(N)+1) | 1
+			if r.Intn(3) == 0 {
+				gal = ring.GaloisGen
+			}
+			if !probesOnly {
+				o := rl.NewPoly()
+				rl.Automorphism(p, gal, o)
+				c.Emit(fmt.Sprintf("rpaut %s %d %s", Vec(qs[:lvl+1]), gal, Mat(rows)), Mat(Canon(rl, o, false, false)))
+				pn := rl.NewPoly()
+				rl.NTT(p, pn)
+				rl.AutomorphismNTT(pn, gal, o)
+				c.Emit(fmt.Sprintf("rpaut %s %d %s", Vec(qs[:lvl+1]), gal, Mat(rows)), Mat(Canon(rl, o, true, false)))
+				idx, _ := ring.AutomorphismNTTIndex(N, uint64(2*N), gal)
+				c.Emit(fmt.Sprintf("autidx %d %d %d", N, 2*N, gal), Vec(idx))
+				kk := r.Intn(4*N) - 2*N
+				o2 := rl.NewPoly()
+				out := Try(func() string { rl.MultByMonomial(p, kk, o2); return Mat(Canon(rl, o2, false, false)) })
+				c.Emit(fmt.Sprintf("rpmono %s %d %s", Vec(qs[:lvl+1]), kk, Mat(rows)), out)
+				c.Count("ring:aut+monomial")
+			}
+		}
 	}
 }
